@@ -1277,6 +1277,17 @@ impl<'a> Body<'a> {
             other => quote!(let #other = &#src[#ivar];),
         };
         let label = &fl.label;
+        if has_continue(&fl.body) && self.opt("nest_continue") {
+            // R15b: every `continue` of the body is the whole body of a top-level `if c { continue; }`: the statements after it move
+            // into `if !(c) { .. }` and the loop stays a `for` (the index keeps meaning "the current element" through the body)
+            if let Some(nested) = nest_continues(&fl.body.stmts) {
+                self.note("R15", format!("for {} in {}: `if c {{ continue; }}` REST -> `if !(c) {{ REST }}` (loop stays a for)", fl.pat.to_token_stream(), fl.expr.to_token_stream()));
+                return Some(parse_stmts(quote!(
+                    let #end = #src.len();
+                    #label for #ivar in 0..#end { #bind #(#nested)* }
+                )));
+            }
+        }
         if has_continue(&fl.body) {
             // R15: Verus `for` has no `continue`; the step moves to the loop head of a `while`
             self.note("R15", format!("for {} in {} (body has `continue`) -> index-driven while loop", fl.pat.to_token_stream(), fl.expr.to_token_stream()));
@@ -1781,6 +1792,28 @@ fn as_drain_filter_map(l: &Local) -> Option<Expr> {
         return None;
     }
     Some((*dr.receiver).clone())
+}
+
+/// R15b helper: `S1; if c { continue; } S2..` -> `S1; if !(c) { S2.. }` (recursively); None when a `continue` remains elsewhere
+fn nest_continues(stmts: &[Stmt]) -> Option<Vec<Stmt>> {
+    for (i, st) in stmts.iter().enumerate() {
+        if let Stmt::Expr(Expr::If(ifx), _) = st {
+            let only_continue = ifx.else_branch.is_none() && ifx.then_branch.stmts.len() == 1
+                && matches!(&ifx.then_branch.stmts[0], Stmt::Expr(Expr::Continue(c), _) if c.label.is_none());
+            if only_continue {
+                let rest = nest_continues(&stmts[i + 1..])?;
+                let cond = &ifx.cond;
+                let mut out: Vec<Stmt> = stmts[..i].to_vec();
+                if out.iter().any(|s| has_continue(&Block { brace_token: Default::default(), stmts: vec![s.clone()] })) {
+                    return None;
+                }
+                out.extend(parse_stmts(quote!( if !(#cond) { #(#rest)* } )));
+                return Some(out);
+            }
+        }
+    }
+    let blk = Block { brace_token: Default::default(), stmts: stmts.to_vec() };
+    if has_continue(&blk) { None } else { Some(stmts.to_vec()) }
 }
 
 fn has_continue(b: &Block) -> bool {
